@@ -50,9 +50,10 @@ theorem op_doc_case (c : Ctx) (root : Val) (env : Env) (hr : EnvRel c root env) 
               exact switch_case c root env hr gs hf hre res hres
             · simp only [hsw, if_false] at hre hres
               by_cases hacc : accOps.contains k = true
-              · -- the code iterates over the keys of the argument document: outside D
-                simp only [hacc, if_true] at hre
-                simp at hre
+              · simp only [hacc, if_true] at hre hres
+                obtain ⟨h12, h3⟩ := append_nil2 hre
+                obtain ⟨h1, h2⟩ := append_nil2 h12
+                exact acc_scalar_core c root env hr k hacc (.doc gs) hsub.self rfl h1 h2 h3 res hres
               have hacc' : accOps.contains k = false := by simpa using hacc
               simp only [hacc', Bool.false_eq_true, if_false] at hre hres
               by_cases hst : strictOps.contains k = true
@@ -67,14 +68,28 @@ theorem op_doc_case (c : Ctx) (root : Val) (env : Env) (hr : EnvRel c root env) 
                   (fun a ha' => by rw [ha'] at h6; exact h6) res hres
               · have hst' : strictOps.contains k = false := by simpa using hst
                 simp only [hst', Bool.false_eq_true, if_false] at hre
+                simp only [hst', Bool.false_eq_true, if_false] at hres
                 by_cases hao : (k = "$and" || k = "$or") = true
-                · rw [if_pos hao] at hre; simp at hre
+                · rw [if_pos hao] at hre hres
+                  obtain ⟨h1, h2⟩ := append_nil2 hre
+                  exact andor_bare c root env hr k hao (.doc gs) hsub.self rfl h1 h2 res hres
                 · rw [if_neg hao] at hre; simp at hre
 
 theorem sOperator_many (root : Val) (env : Env) (a b : String × Val) (r : Fields) :
     sOperator root env (a :: b :: r) = .error .opFail := by
   obtain ⟨k1, v1⟩ := a
   cases v1 <;> rfl
+
+theorem evalItems_ok (c : Ctx) (xs : List Val) (vs : List (Option Val))
+    (h : xs.map (eval c) = vs.map .ok) : evalItems c xs = .ok (vs.map (·.getD .null)) := by
+  induction xs generalizing vs with
+  | nil => cases vs <;> simp_all [evalItems]
+  | cons x xs ih =>
+    cases vs with
+    | nil => simp at h
+    | cons v vs =>
+      simp only [List.map_cons, List.cons.injEq] at h
+      simp [evalItems, h.1, ih vs h.2, bind, Except.bind, pure, Except.pure]
 
 /-- **the induction**: every expression agrees with the oracle inside D, and so does everything
     below it -/
@@ -114,15 +129,12 @@ theorem agrees_all : ∀ v, AllSub Agrees v := by
       | a :: b :: r, _, _, hok, _ =>
         rw [sOperator_many] at hok
         simp [okReasons] at hok
-  · -- arrays: only constant arrays are inside D
+  · -- array literals: every item is evaluated, a missing value gives a null item
     intro xs hsub c root env hr hre hok
     simp only [rExpr] at hre
-    have hconst : isConstList xs = true := by
-      cases h : isConstList xs with
-      | true => rfl
-      | false => rw [h] at hre; simp at hre
-    have := (const_eval (.arr xs)).self (by simpa [isConst] using hconst) root env
-    simp [eval, this]
+    obtain ⟨vs, hv1, hv2⟩ := list_agree c root env hr xs hsub hre
+    rw [eval_arr, evalItems_ok c xs vs hv2]
+    simp only [sEval, sList_ok root env xs vs hv1, bind, Except.bind, pure, Except.pure, Except.map]
   · -- scalars and strings
     intro v hd ha c root env hr hre hok
     cases v with
